@@ -11,6 +11,7 @@ import (
 	"github.com/anishathalye/porcupine"
 	"github.com/gofiber/fiber/v3"
 	"github.com/gofiber/fiber/v3/middleware/limiter"
+	recoverer "github.com/gofiber/fiber/v3/middleware/recover"
 	"github.com/gofiber/fiber/v3/simexport"
 
 	"verif.local/sim/harness"
@@ -52,6 +53,7 @@ type limOp struct {
 	key        string
 	max        int
 	bypass     bool
+	panics     bool // the handler panics (a recover middleware in front answers 500)
 	call, ret  uint64
 	hEntry     uint64
 	hExit      uint64
@@ -324,6 +326,12 @@ func limiterMain(s *simrt.Sim, info *harness.RunInfo) {
 
 	var ops []*limOp
 	app := fiber.New()
+	// some applications recover from panicking handlers in front of everything: such a request was counted
+	// when it came in and, having left the limiter by a panic, is not given back whatever the skip options say
+	usePanic := s.Chance(200)
+	if usePanic {
+		app.Use(recoverer.New())
+	}
 	app.Use(limiter.New(cfg))
 	app.Get("/", func(c fiber.Ctx) error {
 		op := ops[atoi(c.Get("X-Op"))]
@@ -334,6 +342,9 @@ func limiterMain(s *simrt.Sim, info *harness.RunInfo) {
 			simrt.Sleep(time.Duration(op.durMs) * time.Millisecond)
 		}
 		op.hExit = s.Stamp()
+		if op.panics {
+			panic("handler panic in op" + strconv.Itoa(op.id))
+		}
 		return c.SendStatus(op.wantStatus)
 	})
 	app.Handler() // startup work happens before the clients start
@@ -363,6 +374,9 @@ func limiterMain(s *simrt.Sim, info *harness.RunInfo) {
 			}
 			if s.Chance(250) {
 				op.wantStatus = simrt.PickS(s, 500, 404, 400)
+			}
+			if usePanic && s.Chance(150) {
+				op.panics, op.wantStatus = true, 500
 			}
 			op.durMs = simrt.PickS(s, 0, 0, 300, (E+1)*1000, 0)
 			ops = append(ops, op)
@@ -420,6 +434,9 @@ func limiterMain(s *simrt.Sim, info *harness.RunInfo) {
 
 	// ---- oracles ----
 	skipApplies := func(op *limOp) bool {
+		if op.panics {
+			return false
+		}
 		return (skipOK && op.status < 400) || (skipFailed && op.status >= 400)
 	}
 	var hist []porcupine.Operation
@@ -441,7 +458,7 @@ func limiterMain(s *simrt.Sim, info *harness.RunInfo) {
 				s.Fail("C13.response", "op%d: handler answered %d but the client got %d", op.id, op.wantStatus, op.status)
 				continue
 			}
-			if op.limit != strconv.Itoa(op.max) {
+			if !op.panics && op.limit != strconv.Itoa(op.max) { // (the response of a panicking request is the recover middleware's)
 				s.Fail("C13.limit-header", "op%d: X-RateLimit-Limit=%q, MaxFunc returned %d", op.id, op.limit, op.max)
 			}
 			out = limOut{admitted: true, reset: atoi(op.reset), remaining: atoi(op.remaining)}
